@@ -26,6 +26,27 @@ mod verif_c03_error {
         }
     }
 
+    // what a loader returns is a decoding error whatever its concrete type (also when the loader itself failed
+    // with an io::Error, e.g. UnexpectedEof from read_exact), what a source returns is an I/O error
+    // @h name=c03_from_conversions tier=quick timeout=300
+    #[kani::proof]
+    #[kani::unwind(4)]
+    fn c03_from_conversions() {
+        let which: u8 = kani::any();
+        kani::assume(which < 3);
+        let boxed: BoxedError = match which {
+            0 => Box::new(Conv(1)),
+            1 => Box::new(io::Error::from(io::ErrorKind::UnexpectedEof)),
+            _ => Box::new(io::Error::from(io::ErrorKind::NotFound)),
+        };
+        let k = ErrorKind::from(boxed);
+        assert!(matches!(k, ErrorKind::Conversion(_)), "a loader error was not classified as a decoding error");
+        let k2 = ErrorKind::from(io::Error::from(io::ErrorKind::PermissionDenied));
+        assert!(matches!(k2, ErrorKind::Io(_)), "a source error was not classified as an I/O error");
+        kani::cover!(which == 1);
+        std::mem::forget(k); std::mem::forget(k2);
+    }
+
     // @h name=c03_or_rank tier=quick
     #[kani::proof]
     #[kani::unwind(4)]
